@@ -123,7 +123,7 @@ INFO: dict[str, dict[str, Any]] = {
                  "behind the join, optional synthetic stages / builder-built tasks) handled by 2-3 interleaved workers; schedule = seeded "
                  "random walk or PCT (1-3 priority change points); oracle on the durable history: one start, one plan, one trigger per "
                  "upstream, each task step once. distinct = durable-history digest; non-trivial = at least one pre-emption of a ready worker"),
-        "budget": {"quick": {"runs": 240, "seconds": 150, "chunk": 10}, "thorough": {"runs": None, "seconds": 1200, "chunk": 10}},
+        "budget": {"quick": {"runs": 640, "seconds": 150, "chunk": 20}, "thorough": {"runs": None, "seconds": 1200, "chunk": 20}},
         "assumptions": COMMON_ASSUMPTIONS + ["sampling instead of exhaustive enumeration under a pre-emption bound (the property text asks for the latter): PCT gives a per-run probability bound only"],
         "expected_probes": ["lock_wait"],
     },
